@@ -215,7 +215,8 @@ func vLetters(name string, lo, hi int) string {
 }
 
 // VH_C12_mixed: flash messages and old input in one redirect; a message key may equal a submitted
-// field name. case 0: WithInput() then With(); case 1: With() then WithInput().
+// field name. case%2 0: WithInput() then With(); 1: With() then WithInput(); case/2: the redirect is
+// issued with To / Route / Route with Queries / Back.
 // (letters only: the raw-msgpack cookie finding K1 is about other bytes)
 func VH_C12_mixed(caseID int) {
 	app := vNewApp(vCfgs[0])
@@ -225,10 +226,18 @@ func VH_C12_mixed(caseID int) {
 	mval := vLetters("mval", 0, 2)
 	app.Get("/issue", func(c Ctx) error {
 		r := c.Redirect()
-		if caseID == 0 {
+		if caseID%2 == 0 {
 			r.WithInput().With(mkey, mval, 2)
 		} else {
 			r.With(mkey, mval, 2).WithInput()
+		}
+		switch caseID / 2 {
+		case 1:
+			return r.Route("show")
+		case 2:
+			return r.Route("show", RedirectConfig{Queries: map[string]string{"a": "1"}})
+		case 3:
+			return r.Back("/show")
 		}
 		return r.To("/show")
 	})
@@ -238,7 +247,7 @@ func VH_C12_mixed(caseID int) {
 		msgs = c.Redirect().Messages()
 		olds = c.Redirect().OldInputs()
 		return nil
-	})
+	}).Name("show")
 	app.startupProcess()
 	f1 := vDo(app, "GET", "/issue?"+field+"="+fval)
 	vAssert(f1.Response.StatusCode() == StatusFound, "redirect-status")
